@@ -93,6 +93,16 @@ def _sequences(tier):
         r = random.Random(12345)
         for _ in range(260):
             seqs.append((r.choice(STARTS), tuple(r.choice(NAMES) for _ in range(3))))
+        # every length-3 sequence over the requests that act on the dosing side (absorption, lag time, bioavailability,
+        # transits): they move dose, lag time and bioavailability between compartments and interact three deep
+        dosing_side = [n for n in NAMES if n.startswith(("ABS_", "LAG_", "BIO_", "TR_"))]
+        have = set(seqs)
+        for s in ("pheno_iv", "pheno_oral", "mox2"):
+            for a in dosing_side:
+                for b in dosing_side:
+                    for c in dosing_side:
+                        if (s, (a, b, c)) not in have:
+                            seqs.append((s, (a, b, c)))
     _plan[tier] = seqs
     return seqs
 
@@ -107,6 +117,7 @@ def setup(tier):
     from vp import histories
 
     histories.start_models()
+    histories.extra_models()
     _sequences(tier)
 
 
@@ -256,7 +267,7 @@ def run_case(rng, idx, tier):
     c = Case()
     start, seq = _sequences(tier)[idx]
     R = requests()
-    model = histories.start_models()[start]
+    model = histories.start_models()[start] if start in histories.start_models() else histories.extra_models()[start]
     if model.dataset is not None:
         model = model.replace(dataset=model.dataset.copy())
     c.sample = {"start": start, "requests": list(seq)}
@@ -414,7 +425,7 @@ def _coupled(cat, other, name):
     # transit compartments and lag time exclude each other's meaning for absorption delay; setting the absorption to
     # INST/ZO removes the depot and with it transits; transits need a depot (absorption becomes FO)
     pairs = {("absorption", "transits"), ("transits", "absorption"), ("absorption", "lagtime"), ("transits", "lagtime"),
-             ("lagtime", "transits"), ("absorption", "bioavailability")}
+             ("lagtime", "transits")}
     return (cat, other) in pairs
 
 
